@@ -250,6 +250,15 @@ class KillWalker:
             src = it.extra[1]
         if it.extra is not None and it.extra[0] == "items":
             src = it.extra[3]
+        if it.extra is not None and it.extra[0] == "enumerate":
+            src = it.extra[1]
+        if it.extra is not None and it.extra[0] == "zip":
+            # zip(...) ranges over all elements of a member when the others are at least as long; accepted for the
+            # container that owns S when it is a member
+            for m in it.extra[1]:
+                ob = self.eng.obj(S)
+                if ob.owner is not None and ob.owner[0] in m.refs:
+                    src = m
         ob = self.eng.obj(S)
         if ob.owner is not None and ob.owner[0] in src.refs:
             return True
@@ -267,6 +276,22 @@ class KillWalker:
                         isinstance(n.value, ast.ListComp) and \
                         ast.unparse(n.value.generators[0].iter) == "range(self.n_clusters)":
                     return True
+            # the list is built by a loop: empty, then exactly one append per turn of `for _ in range(n_clusters)`
+            from .common import _count_writes
+
+            def is_app(x):
+                return isinstance(x, ast.Call) and isinstance(x.func, ast.Attribute) and x.func.attr == "append" and \
+                    ast.unparse(x.func.value) == "self.lp_list" and len(x.args) == 1
+            empties = [n for n in ast.walk(init.node) if isinstance(n, ast.Assign) and
+                       ast.unparse(n.targets[0]) == "self.lp_list" and ast.unparse(n.value) in ("[]", "list()")]
+            loops = [n for n in ast.walk(init.node) if isinstance(n, ast.For) and
+                     ast.unparse(n.iter) == "range(self.n_clusters)" and any(is_app(x) for x in ast.walk(n))]
+            apps = [x for x in ast.walk(init.node) if is_app(x)]
+            if len(empties) == 1 and len(loops) == 1 and _count_writes(loops[0].body, is_app) == {1} and \
+                    all(any(x is y for y in ast.walk(loops[0])) for x in apps) and \
+                    empties[0].lineno < loops[0].lineno and not any(
+                        isinstance(x, (ast.Break, ast.Continue, ast.Return)) for x in ast.walk(loops[0])):
+                return True
         return False
 
     def _loops_of(self, cev):
